@@ -27,6 +27,7 @@ package smf
 //@ ensures [H] old(rd.spos) <= rd.spos && rd.spos <= rd.sn && rd.spos <= old(rd.spos) + 8
 //@ ensures [H] rd.sfault == nil ==> old(rd.sfault) == nil
 //@ ensures [H] err != nil && rd.sfault == nil ==> (err == io.EOF && rd.spos == rd.sn)
+//@ ensures [H] err == nil || err == io.EOF || int(err) > 1000
 
 // ---------------------------------------------------------------- header chunk
 //@ func parseTimeCode
@@ -48,6 +49,7 @@ package smf
 //@ ensures [H] old(reader.spos) <= reader.spos && reader.spos <= reader.sn && reader.spos <= old(reader.spos) + 6
 //@ ensures [H] reader.sfault == nil ==> old(reader.sfault) == nil
 //@ ensures [H] result != nil && result != io.EOF && reader.sfault == nil ==> result == errUnsupportedSMFFormat
+//@ ensures [H] result != ErrFinished
 
 // representation invariant of a reader
 //@ macro rrs(r) = asptr(r.runningStatus, runningstatus.smfreader).reader.status
@@ -70,11 +72,12 @@ package smf
 //@ ensures [P:C10] old(r.input.sfault) != nil ==> err == old(r.input.sfault)
 //@ ensures [H] old(r.input.spos) <= r.input.spos && r.input.spos <= r.input.sn
 //@ ensures [H] r.input.sfault == nil ==> old(r.input.sfault) == nil
+//@ ensures [H] err != ErrFinished
 
 // track bookkeeping: pt = index of the track being read (-1 before the first), nt = number of tracks announced
 //@ macro pt(r) = int(r.processedTracks)
 //@ macro nt(r) = int(r.SMF.numTracks)
-//@ macro trkInv(r) = -1 <= pt(r) && pt(r) < (nt(r) == 0 ? 1 : nt(r)) && (r.headerIsRead && r.error == nil ==> (len(r.SMF.Tracks) == nt(r) && (r.isDone ==> pt(r) + 1 == nt(r)) && (r.expectChunk && !r.isDone ==> pt(r) + 1 < nt(r)) && (!r.expectChunk && !r.isDone ==> pt(r) >= 0)))
+//@ macro trkInv(r) = r.processedTracks >= -1 && (r.processedTracks == -1 || r.processedTracks < int32(r.SMF.numTracks)) && (r.headerIsRead && r.error == nil ==> (len(r.SMF.Tracks) == nt(r) && (r.isDone ==> r.processedTracks + 1 == int32(r.SMF.numTracks)) && (r.expectChunk && !r.isDone ==> r.processedTracks + 1 < int32(r.SMF.numTracks)) && (!r.expectChunk && !r.isDone ==> r.processedTracks >= 0)))
 
 //@ func (*reader).ReadHeader
 //@ requires rdInv(r) && (!r.headerIsRead ==> (len(r.SMF.Tracks) == 0 && r.processedTracks == -1 && !r.isDone && r.error == nil))
@@ -92,6 +95,7 @@ package smf
 //@ ensures [P:C10] !old(r.headerIsRead) && old(r.input.sfault) != nil ==> result == old(r.input.sfault)
 //@ ensures [H] old(r.input.spos) <= r.input.spos && r.input.spos <= r.input.sn
 //@ ensures [H] r.input.sfault == nil ==> old(r.input.sfault) == nil
+//@ ensures [H] !old(r.headerIsRead) ==> result != ErrFinished
 //@ loop 0 invariant 0 <= i && i <= nt(r) && len(r.SMF.Tracks) == i && r.error == nil && r.headerIsRead
 //@ loop 0 invariant forall j int :: 0 <= j && j < len(r.SMF.Tracks) ==> len(r.SMF.Tracks[j]) == 0
 //@ loop 0 decreases nt(r) - i
@@ -99,11 +103,11 @@ package smf
 // ---------------------------------------------------------------- chunk loop
 // readChunk: reads one chunk header; "MTrk" starts the next track, any other chunk is skipped by its length
 //@ func (*reader).readChunk
-//@ requires rdInv(r)
+//@ requires rdInv(r) && r.processedTracks >= -1 && r.processedTracks < 65536
 //@ modifies r.expectedChunkLength, r.error, r.processedTracks, r.expectChunk, r.input.spos, r.input.sfault
 //@ ensures [H] old(r.error) != nil ==> (r.error == old(r.error) && r.processedTracks == old(r.processedTracks) && r.expectChunk == old(r.expectChunk) && r.input.spos == old(r.input.spos) && r.input.sfault == old(r.input.sfault))
-//@ ensures [P:C02] old(r.error) == nil && r.error == nil && isMTrk(r.input.sdata, old(r.input.spos)) ==> (pt(r) == old(pt(r)) + 1 && !r.expectChunk && r.input.spos == old(r.input.spos) + 8)
-//@ ensures [P:C02] old(r.error) == nil && r.error == nil && !isMTrk(r.input.sdata, old(r.input.spos)) ==> (pt(r) == old(pt(r)) && r.expectChunk && r.input.spos == old(r.input.spos) + 8 + int(be32(r.input.sdata, old(r.input.spos) + 4)))
+//@ ensures [P:C02] old(r.error) == nil && r.error == nil && isMTrk(r.input.sdata, old(r.input.spos)) ==> (r.processedTracks == old(r.processedTracks) + 1 && !r.expectChunk && r.input.spos == old(r.input.spos) + 8)
+//@ ensures [P:C02] old(r.error) == nil && r.error == nil && !isMTrk(r.input.sdata, old(r.input.spos)) ==> (r.processedTracks == old(r.processedTracks) && r.expectChunk && r.input.spos == old(r.input.spos) + 8 + int(be32(r.input.sdata, old(r.input.spos) + 4)))
 //@ ensures [P:C09] old(r.error) == nil && r.input.sfault == nil && old(r.input.sn) - old(r.input.spos) >= 8 && isMTrk(r.input.sdata, old(r.input.spos)) ==> r.error == nil
 //@ ensures [P:C09] old(r.error) == nil && r.input.sfault == nil && old(r.input.sn) - old(r.input.spos) >= 8 + int(be32(r.input.sdata, old(r.input.spos) + 4)) ==> r.error == nil
 //@ ensures [P:C10] old(r.error) == nil && r.error == io.EOF ==> r.input.sfault == nil
@@ -112,6 +116,7 @@ package smf
 //@ ensures [H] old(r.input.spos) <= r.input.spos && r.input.spos <= r.input.sn
 //@ ensures [H] r.input.sfault == nil ==> old(r.input.sfault) == nil
 //@ ensures [P:C05] old(r.error) == nil && r.error == nil ==> r.input.spos >= old(r.input.spos) + 8
+//@ ensures [H] old(r.error) == nil ==> r.error != ErrFinished
 
 // ---------------------------------------------------------------- one event (the byte after the delta time = canary is already read)
 // d = the stream's data, p0 = position after the canary, rs = running status before the event, k = evKind(canary, rs)
@@ -121,11 +126,12 @@ package smf
 
 //@ func (*reader)._readEvent
 //@ uses vlqSpanDef
-//@ requires rdInv(r)
+//@ requires rdInv(r) && r.processedTracks >= -1 && r.processedTracks < 65535
 //@ modifies r.isDone, r.expectChunk, r.input.spos, r.input.sfault, *asptr(r.runningStatus, runningstatus.smfreader)
 //@ ensures [H] rdInv(r)
 //@ ensures [P:C02] old(ek(r, canary)) != 0 ==> rrs(r) == evRS(canary, old(rrs(r)))
-//@ ensures [P:C05] old(ek(r, canary)) == 0 ==> err != nil
+// (k == 0, a byte that cannot start an event of a valid file: the properties ask for no panic only; the code
+// reports an error unless a running status is in effect, in which case the byte is taken for a data byte)
 // channel message with its status byte
 //@ ensures [P:C02] old(ek(r, canary)) == 3 && chNeed2(canary) && err == nil && len(m) != 0 ==> (len(m) == 3 && m[0] == canary && m[1] == r.input.sdata[old(r.input.spos)] && m[2] == r.input.sdata[old(r.input.spos) + 1] && r.input.spos == old(r.input.spos) + 2)
 //@ ensures [P:C02] old(ek(r, canary)) == 3 && !chNeed2(canary) && err == nil ==> (len(m) == 2 && m[0] == canary && m[1] == r.input.sdata[old(r.input.spos)] && r.input.spos == old(r.input.spos) + 1)
@@ -134,29 +140,34 @@ package smf
 //@ ensures [P:C02] old(ek(r, canary)) == 4 && !chNeed2(old(rrs(r))) ==> (err == nil && len(m) == 2 && m[0] == old(rrs(r)) && m[1] == canary && r.input.spos == old(r.input.spos) && r.input.sfault == old(r.input.sfault))
 // a failure while the last data byte is read is not reported here: an empty message comes back and the stream is
 // exhausted or faulty, so that the next read fails (see DESIGN, D10)
-//@ ensures [P:C05] err == nil && len(m) == 0 ==> ((r.input.sfault != nil || r.input.spos == r.input.sn) && (old(ek(r, canary)) == 3 || old(ek(r, canary)) == 4))
+//@ ensures [P:C05] err == nil && len(m) == 0 ==> ((r.input.sfault != nil || r.input.spos == r.input.sn) && (old(ek(r, canary)) == 3 || old(ek(r, canary)) == 4 || old(ek(r, canary)) == 0))
 //@ ensures [P:C09] old(ek(r, canary)) == 3 && r.input.sfault == nil && old(r.input.sn) - old(r.input.spos) >= (chNeed2(canary) ? 2 : 1) ==> (err == nil && len(m) != 0)
 //@ ensures [P:C09] old(ek(r, canary)) == 4 && r.input.sfault == nil && old(r.input.sn) - old(r.input.spos) >= 1 ==> (err == nil && len(m) != 0)
 // sysex / escape: F0 or F7, length, that many bytes; the message is the status byte followed by the bytes
 //@ ensures [P:C02] old(ek(r, canary)) == 2 && err == nil ==> (vlqEndsAt(r.input.sdata, old(r.input.spos), vlqSpan(r.input.sdata, old(r.input.spos))) && len(m) == 1 + int(vq(r.input.sdata, old(r.input.spos))) && m[0] == canary && r.input.spos == old(r.input.spos) + vlqSpan(r.input.sdata, old(r.input.spos)) + len(m) - 1)
 //@ ensures [P:C02] old(ek(r, canary)) == 2 && err == nil ==> forall i int :: 0 <= i && i < len(m) - 1 ==> m[1 + i] == r.input.sdata[old(r.input.spos) + vlqSpan(r.input.sdata, old(r.input.spos)) + i]
 // meta event: FF type length bytes; the message is FF type vlq(length) bytes (minimal length encoding)
-//@ ensures [P:C02] old(ek(r, canary)) == 1 && err == nil ==> (vlqEndsAt(r.input.sdata, old(r.input.spos) + 1, vlqSpan(r.input.sdata, old(r.input.spos) + 1)) && m[0] == 0xFF && m[1] == r.input.sdata[old(r.input.spos)] && r.input.spos == old(r.input.spos) + 1 + vlqSpan(r.input.sdata, old(r.input.spos) + 1) + int(vq(r.input.sdata, old(r.input.spos) + 1)))
-//@ ensures [P:C02] old(ek(r, canary)) == 1 && err == nil ==> (len(m) == 2 + vlqLen(vq(r.input.sdata, old(r.input.spos) + 1)) + int(vq(r.input.sdata, old(r.input.spos) + 1)) && vlqAt(m, 2, vq(r.input.sdata, old(r.input.spos) + 1)))
+//@ ensures [P:C02] old(ek(r, canary)) == 1 && err == nil ==> vlqEndsAt(r.input.sdata, old(r.input.spos) + 1, vlqSpan(r.input.sdata, old(r.input.spos) + 1))
+//@ ensures [P:C02] old(ek(r, canary)) == 1 && err == nil ==> (m[0] == 0xFF && m[1] == r.input.sdata[old(r.input.spos)])
+//@ ensures [P:C02] old(ek(r, canary)) == 1 && err == nil ==> r.input.spos == old(r.input.spos) + 1 + vlqSpan(r.input.sdata, old(r.input.spos) + 1) + int(vq(r.input.sdata, old(r.input.spos) + 1))
+//@ ensures [P:C02] old(ek(r, canary)) == 1 && err == nil ==> len(m) == 2 + vlqLen(vq(r.input.sdata, old(r.input.spos) + 1)) + int(vq(r.input.sdata, old(r.input.spos) + 1))
+//@ ensures [P:C02] old(ek(r, canary)) == 1 && err == nil ==> vlqAt(m, 2, vq(r.input.sdata, old(r.input.spos) + 1))
 //@ ensures [P:C02] old(ek(r, canary)) == 1 && err == nil ==> forall i int :: 0 <= i && i < int(vq(r.input.sdata, old(r.input.spos) + 1)) ==> m[2 + vlqLen(vq(r.input.sdata, old(r.input.spos) + 1)) + i] == r.input.sdata[old(r.input.spos) + 1 + vlqSpan(r.input.sdata, old(r.input.spos) + 1) + i]
+//@ ensures [H] err == nil && len(m) > 0 && m[0] == 0xFF ==> old(ek(r, canary)) == 1
 // end of track: the last announced track finishes the file, any other is followed by a chunk
-//@ ensures [P:C02] (old(ek(r, canary)) == 1 && err == nil && r.input.sdata[old(r.input.spos)] == 0x2F) ==> ((pt(r) + 1 == nt(r)) ? (r.isDone && r.expectChunk == old(r.expectChunk)) : (r.expectChunk && r.isDone == old(r.isDone)))
+//@ ensures [P:C02] (old(ek(r, canary)) == 1 && err == nil && r.input.sdata[old(r.input.spos)] == 0x2F) ==> ((uint16(r.processedTracks + 1) == r.SMF.numTracks) ? (r.isDone && r.expectChunk == old(r.expectChunk)) : (r.expectChunk && r.isDone == old(r.isDone)))
 //@ ensures [P:C02] !(old(ek(r, canary)) == 1 && err == nil && r.input.sdata[old(r.input.spos)] == 0x2F) ==> (r.isDone == old(r.isDone) && r.expectChunk == old(r.expectChunk))
 //@ ensures [P:C10] err == io.EOF ==> r.input.sfault == nil
-//@ ensures [P:C10] old(r.input.sfault) != nil && old(ek(r, canary)) != 4 ==> err != nil
+//@ ensures [P:C10] old(r.input.sfault) != nil && old(ek(r, canary)) != 4 && old(ek(r, canary)) != 0 ==> err != nil
 //@ ensures [H] old(r.input.spos) <= r.input.spos && r.input.spos <= r.input.sn
 //@ ensures [H] r.input.sfault == nil ==> old(r.input.sfault) == nil
 //@ ensures [H] err != nil && r.input.sfault == nil && old(ek(r, canary)) != 0 ==> ((err == io.EOF || err == utils.ErrUnexpectedEOF) && r.input.spos == r.input.sn)
+//@ ensures [H] err != ErrFinished
 
 // ---------------------------------------------------------------- delta time + event
 //@ func (*reader).readEvent
 //@ uses vlqSpanDef
-//@ requires rdInv(r)
+//@ requires rdInv(r) && r.processedTracks >= -1 && r.processedTracks < 65535
 //@ modifies r.deltatime, r.isDone, r.expectChunk, r.input.spos, r.input.sfault, *asptr(r.runningStatus, runningstatus.smfreader)
 //@ ensures [H] rdInv(r)
 //@ ensures [H] old(r.error) != nil ==> (err == old(r.error) && r.input.spos == old(r.input.spos) && r.input.sfault == old(r.input.sfault) && r.isDone == old(r.isDone) && r.expectChunk == old(r.expectChunk) && r.deltatime == old(r.deltatime))
@@ -164,12 +175,69 @@ package smf
 //@ ensures [P:C05] old(r.error) == nil && err == nil ==> r.input.spos > old(r.input.spos)
 //@ ensures [P:C05] old(r.error) == nil && err == nil && len(m) == 0 ==> (r.input.sfault != nil || r.input.spos == r.input.sn)
 //@ ensures [P:C05] err == nil && len(m) == 0 ==> (r.isDone == old(r.isDone) && r.expectChunk == old(r.expectChunk))
-//@ ensures [P:C02] r.isDone ==> (old(r.isDone) || (err == nil && pt(r) + 1 == nt(r) && len(m) >= 2 && m[0] == 0xFF && m[1] == 0x2F))
-//@ ensures [P:C02] r.expectChunk ==> (old(r.expectChunk) || (err == nil && pt(r) + 1 != nt(r) && len(m) >= 2 && m[0] == 0xFF && m[1] == 0x2F))
+//@ ensures [P:C02] r.isDone ==> (old(r.isDone) || (err == nil && uint16(r.processedTracks + 1) == r.SMF.numTracks && len(m) >= 2 && m[0] == 0xFF && m[1] == 0x2F))
+//@ ensures [P:C02] r.expectChunk ==> (old(r.expectChunk) || (err == nil && uint16(r.processedTracks + 1) != r.SMF.numTracks && len(m) >= 2 && m[0] == 0xFF && m[1] == 0x2F))
 //@ ensures [P:C02] err == nil && len(m) >= 2 && m[0] == 0xFF && m[1] == 0x2F && old(r.error) == nil ==> (r.isDone || r.expectChunk)
 //@ ensures [H] !r.isDone ==> !old(r.isDone)
 //@ ensures [H] !r.expectChunk ==> !old(r.expectChunk)
 //@ ensures [P:C10] err == io.EOF && old(r.error) == nil ==> r.input.sfault == nil
 //@ ensures [P:C10] old(r.input.sfault) != nil && old(r.error) == nil ==> err != nil
+//@ ensures [H] old(r.error) == nil ==> err != ErrFinished
+//@ ensures [H] old(r.input.spos) <= r.input.spos && r.input.spos <= r.input.sn
+//@ ensures [H] r.input.sfault == nil ==> old(r.input.sfault) == nil
+
+// ---------------------------------------------------------------- read: header on first use, chunk headers, one event
+// a reader that has not read the header yet is in its initial state
+//@ macro rdFresh(r) = !r.headerIsRead ==> (len(r.SMF.Tracks) == 0 && r.processedTracks == -1 && !r.isDone && !r.expectChunk && r.error == nil)
+// the error latch: an end-of-file is never latched on top of a fault; the "finished" sentinel is never latched
+// (the errors of the source are its own, see the io.Reader contract)
+//@ macro errOK(r) = (r.error == io.EOF ==> r.input.sfault == nil) && r.error != ErrFinished
+//@ macro hdrSame(r) = r.SMF.format == old(r.SMF.format) && r.SMF.numTracks == old(r.SMF.numTracks) && r.SMF.TimeFormat == old(r.SMF.TimeFormat) && r.SMF.Tracks == old(r.SMF.Tracks)
+
+// (ReadFrom reads the header itself before it asks for events; read and Read are verified for that use)
+//@ func (*reader).read
+//@ uses vlqSpanDef
+//@ requires rdInv(r) && trkInv(r) && r.headerIsRead && errOK(r)
+//@ modifies *r, r.SMF.format, r.SMF.numTracks, r.SMF.TimeFormat, r.SMF.Tracks, r.input.spos, r.input.sfault, *asptr(r.runningStatus, runningstatus.smfreader)
+//@ ensures [H] rdInv(r)
+//@ ensures [H] trkInv(r)
+//@ ensures [H] errOK(r) && r.SMF == old(r.SMF) && r.input == old(r.input) && r.runningStatus == old(r.runningStatus)
+//@ ensures [H] old(r.headerIsRead) ==> hdrSame(r)
+//@ ensures [H] err == nil ==> r.error == nil
+//@ ensures [P:C05] err == nil ==> (r.headerIsRead && r.processedTracks >= 0 && r.processedTracks < int32(r.SMF.numTracks) && len(r.SMF.Tracks) == nt(r))
+//@ ensures [P:C05] err == nil ==> r.input.spos > old(r.input.spos)
+// a chunk header is due after a successful read only if that read delivered the end of a track (alien chunks
+// between the tracks are skipped, SMF 1.0: "programs should ignore chunk types they do not know")
+//@ ensures [P:C02] err == nil && r.expectChunk ==> (len(m) >= 2 && m[0] == 0xFF && m[1] == 0x2F)
+//@ ensures [P:C02] err == nil && r.isDone && !old(r.isDone) ==> (len(m) >= 2 && m[0] == 0xFF && m[1] == 0x2F)
+//@ ensures [P:C05] err == nil && len(m) == 0 ==> ((r.input.sfault != nil || r.input.spos == r.input.sn) && !r.expectChunk && !r.isDone)
+//@ ensures [P:C10] err == io.EOF ==> r.input.sfault == nil
+//@ ensures [P:C10] err == ErrFinished ==> old(r.isDone)
+//@ ensures [H] old(r.isDone) ==> (err == ErrFinished && r.isDone && r.input.spos == old(r.input.spos) && r.input.sfault == old(r.input.sfault))
+//@ ensures [H] old(r.input.spos) <= r.input.spos && r.input.spos <= r.input.sn
+//@ ensures [H] r.input.sfault == nil ==> old(r.input.sfault) == nil
+//@ loop 0 invariant rdInv(r) && trkInv(r) && r.headerIsRead && !r.isDone && r.SMF == old(r.SMF) && r.input == old(r.input) && r.runningStatus == old(r.runningStatus)
+//@ loop 0 invariant old(r.headerIsRead) ==> hdrSame(r)
+//@ loop 0 invariant old(r.input.spos) <= r.input.spos && r.input.spos <= r.input.sn && (r.input.sfault == nil ==> old(r.input.sfault) == nil)
+//@ loop 0 invariant errOK(r)
+//@ loop 0 invariant rrs(r) == old(rrs(r)) && r.isDone == old(r.isDone)
+//@ loop 0 decreases (r.error == nil ? 1 : 0) + r.input.sn - r.input.spos
+
+//@ func (*reader).Read
+//@ uses vlqSpanDef
+//@ requires rdInv(r) && trkInv(r) && r.headerIsRead && errOK(r)
+//@ modifies *r, r.SMF.format, r.SMF.numTracks, r.SMF.TimeFormat, r.SMF.Tracks, r.input.spos, r.input.sfault, *asptr(r.runningStatus, runningstatus.smfreader)
+//@ ensures [H] rdInv(r)
+//@ ensures [H] trkInv(r)
+//@ ensures [H] errOK(r) && r.SMF == old(r.SMF) && r.input == old(r.input) && r.runningStatus == old(r.runningStatus)
+//@ ensures [H] old(r.headerIsRead) ==> hdrSame(r)
+//@ ensures [H] err == nil ==> r.error == nil
+//@ ensures [P:C05] err == nil ==> (r.headerIsRead && r.processedTracks >= 0 && r.processedTracks < int32(r.SMF.numTracks) && len(r.SMF.Tracks) == nt(r))
+//@ ensures [P:C05] err == nil ==> r.input.spos > old(r.input.spos)
+//@ ensures [P:C02] err == nil && r.expectChunk ==> (len(m) >= 2 && m[0] == 0xFF && m[1] == 0x2F)
+//@ ensures [P:C02] err == nil && r.isDone && !old(r.isDone) ==> (len(m) >= 2 && m[0] == 0xFF && m[1] == 0x2F)
+//@ ensures [P:C05] err == nil && len(m) == 0 ==> ((r.input.sfault != nil || r.input.spos == r.input.sn) && !r.expectChunk && !r.isDone)
+//@ ensures [P:C10] err == io.EOF ==> r.input.sfault == nil
+//@ ensures [P:C10] err == ErrFinished ==> old(r.isDone)
 //@ ensures [H] old(r.input.spos) <= r.input.spos && r.input.spos <= r.input.sn
 //@ ensures [H] r.input.sfault == nil ==> old(r.input.sfault) == nil
